@@ -63,8 +63,12 @@ def run(tier, seed):
         except (kex.NoteFormatError, cex.NoteFormatError):
             pass
         except Exception as e:  # noqa
-            # two old behaviours are left alone: the empty name (IndexError) and a non-numeric octave (ValueError)
-            if not (bad == "" and isinstance(e, IndexError)) and not (bad == "C-x" and isinstance(e, ValueError)):
+            # two old behaviours are left alone (the text IS rejected, only not with the documented class): an empty
+            # name part ('' , '-4': IndexError) and a non-numeric octave part ('C-x': ValueError)
+            name_part, _, oct_part = bad.partition("-")
+            empty_name = name_part == "" and isinstance(e, IndexError)
+            bad_octave = "-" in bad and not oct_part.lstrip("-").isdigit() and isinstance(e, ValueError)
+            if not empty_name and not bad_octave:
                 R.fail("Note.__init__", "malformed-rejected", "%r raised %s instead of the note-format error"
                        % (bad, type(e).__name__), bad)
     # Hz conversion: doubles per octave, A-4 at the standard pitch, note -> Hz -> note with detuning
